@@ -149,7 +149,11 @@ Definition run_seg_spec (args : list val) : val :=
             let ends := Nat.eqb (List.length rv) (S kk)
                         || (Nat.eqb (List.length rv) (S (S kk)) && val_eqb (nth (S kk) rv (VS "none")) (VS "Disconnected")) in
             let calls_ok := is_prefix cv cw in
-            if pre_ok && last_ok && ends && calls_ok then VS "true" else VS "false:C08"
+            if pre_ok && last_ok && ends && calls_ok then VS "true"
+            (* a request whose body was cut (the header arrived, o >= 12) and that is nevertheless served or reaches a
+               handler was parsed from bytes that were never received: C05 as much as C08 *)
+            else if (12 <=? o) && negb (last_ok && calls_ok) then VS "false:C05,C08"
+            else VS "false:C08"
         | _, _ => VS "false:C08"
         end
   | _ => verror "args"
